@@ -8,7 +8,7 @@ try:
 except ImportError:  # pragma: no cover
     from monotonic import monotonic
 
-from .common import _Future, MAX_TIMEOUT, copy_future_exception
+from .common import _Future, MAX_TIMEOUT, copy_future_exception, try_set_result
 from .wrap import CanCustomizeBind
 from .helpers import executor_loop
 from .event import get_event, is_shutdown
@@ -477,7 +477,7 @@ def copy_future(f1, f2):
     if exception is not None:
         copy_future_exception(f1, f2)
     else:
-        f2.set_result(result)
+        try_set_result(f2, result)
 
 
 def eval_policy(job, logger):
@@ -526,8 +526,12 @@ def _submit_loop(executor_ref):
 
         if job.stop_retry:
             executor._log.debug("Discarding job due to cancel: %s", job)
-            executor._pop_job(job)
+            # Resolve the future before removing the job, not after: a cancel()
+            # racing with us must find the job for as long as the future is
+            # not done. (If that cancel wins, the future is already cancelled
+            # and there is nothing left to copy.)
             copy_future(job.old_delegate, job.future)
+            executor._pop_job(job)
             continue
 
         now = monotonic()
